@@ -621,6 +621,30 @@ pub mod bed {
             };
             ensure!(got.strand() == st, "BED record {:?}: strand() = {:?}, expected {:?}", exp, got.strand(), st);
         }
+        // a record that came out of the reader, edited through its setters and written again
+        if let Some(Ok(first)) = items.first() {
+            let mut m = first.clone();
+            m.set_start(first.start().wrapping_add(1));
+            m.set_chrom("edited");
+            if k >= 1 {
+                m.set_name("renamed");
+            }
+            let mut buf = Vec::new();
+            {
+                let mut w = lib::Writer::new(&mut buf);
+                if let Err(e) = w.write(&m) {
+                    fail!("BED writer refused a record obtained from the reader and edited through its setters: {}", e);
+                }
+            }
+            let again = read(&buf)?;
+            ensure!(again.len() == 1 && again[0].is_ok(), "a BED record read from {:?}, edited and written again as {:?} reads back as {} items", lossy(&file), lossy(&buf), again.len());
+            let back = again[0].as_ref().unwrap();
+            let mut want_aux = aux_of(first);
+            if k >= 1 {
+                want_aux[0] = "renamed".to_string();
+            }
+            ensure!(back.chrom() == "edited" && back.start() == m.start() && back.end() == first.end() && aux_of(back) == want_aux, "a BED record read from {:?}, then given chrom \"edited\", start+1{}, was written as {:?} and reads back as chrom={:?} start={} end={} aux={:?}", lossy(&file), if k >= 1 { " and the name \"renamed\"" } else { "" }, lossy(&buf), back.chrom(), back.start(), back.end(), aux_of(back));
+        }
         let any = |f: &dyn Fn(&str) -> bool| c.recs.iter().any(|r| f(&r.chrom) || r.aux.iter().any(|a| f(a)));
         let mut p = Pass::new(k >= 2);
         p.add_if(k == 0, "k=0");
@@ -642,7 +666,7 @@ pub mod bed {
     }
 
     /// strict oracle on an arbitrary byte file (DESIGN (i), (ii), (iv))
-    fn oracle(file: &[u8]) -> Result<Outcome, Stop> {
+    pub fn oracle(file: &[u8]) -> Result<Outcome, Stop> {
         let items = read(file)?;
         let mut o = Outcome::default();
         if !strict::modelled(file) {
@@ -1151,7 +1175,7 @@ pub mod gff {
         Ok(lines)
     }
 
-    fn oracle(d: Dialect, file: &[u8], recs: &[Rec]) -> Result<Outcome, Stop> {
+    pub fn oracle(d: Dialect, file: &[u8], recs: &[Rec]) -> Result<Outcome, Stop> {
         let items = read(d, file)?;
         let mut o = Outcome::default();
         if !strict::modelled(file) {
@@ -1400,6 +1424,76 @@ pub mod gff {
             .prop_flat_map(|d| (Just(d), pvec(rec(d, true), 1..=3), comments(true, 2), edits(), cut(20)))
             .prop_map(|(dialect, recs, comments, edits, cut)| CorruptCase { dialect, recs, comments, edits, cut })
             .boxed()
+    }
+}
+
+
+// ---------------------------------------------------------------------------
+// raw bytes: any byte string through the BED reader and the GFF reader of each dialect, judged by the strict
+// line parser (no panic, terminates, one item per data line, a malformed line is never Ok, an Ok record equals
+// the strict parse of its own line). Shared with the libFuzzer target `tabular`.
+pub mod rawbytes {
+    use super::*;
+
+    #[derive(Serialize, Deserialize, Debug, Clone)]
+    pub struct BytesCase {
+        /// 0: BED; 1: GFF3; 2: GFF2; 3: GTF2
+        pub kind: u8,
+        pub data: B,
+    }
+
+    pub fn check(c: &BytesCase) -> R {
+        let data: &[u8] = &c.data;
+        let (ok, malformed, unmodelled) = match c.kind % 4 {
+            0 => {
+                let o = bed::oracle(data)?;
+                (o.ok.iter().filter(|&&k| k).count(), o.malformed.iter().filter(|&&m| m).count(), o.unmodelled_file)
+            }
+            k => {
+                let d = [gff::Dialect::GFF3, gff::Dialect::GFF2, gff::Dialect::GTF2][(k - 1) as usize];
+                let o = gff::oracle(d, data, &[])?;
+                (o.ok.iter().filter(|&&k| k).count(), o.malformed.iter().filter(|&&m| m).count(), o.unmodelled_file)
+            }
+        };
+        let mut p = Pass::new(ok + malformed >= 2);
+        p.add(["BED", "GFF3", "GFF2", "GTF2"][(c.kind % 4) as usize]);
+        p.add_if(ok >= 1, "a record read as Ok");
+        p.add_if(malformed >= 1, "a malformed data line");
+        p.add_if(ok >= 1 && malformed >= 1, "Ok and malformed lines in one file");
+        p.add_if(unmodelled, "quote/CR byte: only no-panic and termination checked");
+        p.add_if(data.is_empty(), "empty input");
+        Ok(p)
+    }
+
+    pub fn strat(_t: Tier) -> BoxedStrategy<BytesCase> {
+        const TOK: &[&str] = &["chr1", "chrX", "1", "0", "10", "100", "18446744073709551615", "18446744073709551616", "-1", "1e3", "0x10", "+", "-", ".", "?", "", " ", "name", "gene", "exon", "src", "ID=a", "ID=a;Note=b,c", "gene_id \"g\"; transcript_id \"t\";", "k v", "0.5", "3", "2", "track", "track name=x", "browser", "browser position chr1:1-2", "#", "##gff-version 3", "#chr1", "255,0,0", "\u{e9}"];
+        let tok = prop_oneof![8 => sel(TOK), 1 => chars_of("abc019.;=, -+", 0, 5)];
+        let sep = prop_oneof![10 => Just("\t"), 3 => Just("\n"), 1 => Just(" "), 1 => Just("\t\t"), 1 => Just("\n\n")];
+        let grammar = pvec((tok, sep), 0..=40).prop_map(|v| v.into_iter().flat_map(|(t, s)| [t.into_bytes(), s.as_bytes().to_vec()].concat()).collect::<Vec<u8>>());
+        // well-formed lines of either format with one column damaged
+        let line = (0u8..2, 0u64..2000, 0u64..2000, 0usize..9, proptest::option::of((0usize..10, sel(&["", "x", "-1", "1.5", " 3", "99999999999999999999", "."])))).prop_map(|(fmt, a, b, naux, dmg)| {
+            let mut cols: Vec<String> = if fmt == 0 {
+                let mut c = vec!["chr1".to_string(), a.to_string(), b.to_string()];
+                for i in 0..naux {
+                    c.push(format!("x{}", i));
+                }
+                c
+            } else {
+                vec!["chr1".into(), "src".into(), "gene".into(), a.to_string(), b.to_string(), ".".into(), "+".into(), "0".into(), "ID=g1;Note=a,b".into()]
+            };
+            if let Some((i, v)) = dmg {
+                if i < cols.len() {
+                    cols[i] = v;
+                } else {
+                    cols.push(v);
+                }
+            }
+            let mut l = cols.join("\t").into_bytes();
+            l.push(b'\n');
+            l
+        });
+        let lines = pvec(line, 0..=6).prop_map(|v| v.concat());
+        (0u8..4, prop_oneof![3 => grammar, 3 => lines, 1 => pvec(any::<u8>(), 0..=60)]).prop_map(|(kind, data)| BytesCase { kind, data: B(data) }).boxed()
     }
 }
 
